@@ -270,10 +270,10 @@ impl PathSliceList {
                             write!(ret, "({})!==undefined||", sub_s)?;
                         }
                     }
+                    // every item keeps its index: an item without a path is a hole
                     write!(ret, "Q.a([")?;
-                    let mut next_need_comma_sep = false;
-                    for (sub_pas, sub_p) in v.iter() {
-                        if next_need_comma_sep {
+                    for (index, (sub_pas, sub_p)) in v.iter().enumerate() {
+                        if index > 0 {
                             write!(ret, ",")?;
                         }
                         let mut s = String::new();
@@ -285,7 +285,6 @@ impl PathSliceList {
                         )?;
                         if let Some(_) = sub_pas_str {
                             write!(ret, "{}", s)?;
-                            next_need_comma_sep = true;
                         }
                     }
                     write!(ret, "])")?;
